@@ -63,6 +63,9 @@ def unchecked_writes(prog, f, buf_call):
 def c03a(ck, prog):
     R = "C03-a PAIR capacity"
     f = prog.coroutine_body(prog.one(r"^ohkami::response::Response::send$").key)
+    # the head buffer may be built by a local helper (capacity = line + headers + a `body_len` argument): read send with it
+    # spliced in at every call site, so that each arm's reservation and writes are seen together
+    f = prog.inlined(f, 1, r"Vec::<T>::with_capacity$|Vec::<T, A>::with_capacity(_in)?$")
     caps = [c for c in f.calls_to(r"Vec::<T>::with_capacity$|Vec::<T, A>::with_capacity(_in)?$")]
     arms = 0
     nwrites = 0
@@ -118,7 +121,7 @@ def c03a(ck, prog):
                 ok = True
         ck.ob(R, "who:write_unchecked_to<-" + g.key[-60:], ok, g.loc(c.sp), "" if ok else "%s calls Headers::write_unchecked_to without having reserved `size` bytes in a dominating with_capacity/reserve" % g.key,
               how="reservation of `size` dominates the call")
-    ck.floor(R, "callers of write_unchecked_to", len(callers), 5)
+    ck.floor(R, "callers of write_unchecked_to", len(callers), 2)
     # WHO: raw copy into a Vec tail happens only in send, write_unchecked_to (expansion of push_unchecked!)
     for fn in prog.fns.values():
         if fn.crate != "ohkami":
@@ -127,7 +130,7 @@ def c03a(ck, prog):
             if c.name == "copy_nonoverlapping" and "push_unchecked" in " ".join(c.mx):
                 ALLOWED = r"^ohkami::response::(Response::send::\{closure#0\}|headers::Headers::write_unchecked_to(::\w+)?)$"
                 ok = re.search(ALLOWED, fn.key) is not None
-                if not ok and fn.unsafe and not fn.pub and "response::" in fn.key:
+                if not ok and not fn.pub and "response::" in fn.key:
                     # an `unsafe fn` helper of the writers (its capacity precondition is its callers' business): only they call it
                     cs = prog.callers().get(fn.key, [])
                     ok = bool(cs) and all(re.search(ALLOWED, c_.fn.key) for c_ in cs)
@@ -162,6 +165,7 @@ def c03g(ck, prog):
     R = "C03-g MUSTPASS payload sent"
     f = prog.coroutine_body(prog.one(r"^ohkami::response::Response::send$").key)
     f = prog.awaited_inlined(f, 1, containing=r"(AsyncWriteExt|WriteExt)::write_all$")     # `write_all` + `flush` as an awaited local helper
+    f = prog.inlined(f, 1, r"Vec::<T>::with_capacity$|Vec::<T, A>::with_capacity(_in)?$")        # the head buffer built by a local helper
     arm = None
     for bi in sorted(f.live_blocks()):
         info = f.switch_info(bi) if f.blocks[bi]["t"]["k"] == "switch" else None
@@ -617,6 +621,10 @@ def c03e(ck, prog):
             fa = guards.facts_at(h, prog, bi)
             heads.append(sorted(str(tuple(x.allowed)[0]) for x in fa if x.kind == "variant" and x.allowed and len(x.allowed) == 1))
     ok = any("HEAD" in d for d in heads)
+    if not ok:
+        # under a flag `matches!(req.method, Method::HEAD)`: every path to the store takes the HEAD edge of a match on the method
+        from .C01 import head_guarded
+        ok = any(head_guarded(h, prog, bi) for bi, st, agg in decision.field_stores(h, "content") if agg is not None and agg[1].get("variant") == "None")
     ck.ob(R, "HEAD:drops-body", ok, h.loc(None), "" if ok else "Router::handle does not drop the body of a HEAD response", how="HEAD => res.content = None")
 
 
